@@ -185,9 +185,21 @@ def generate(rng, tier):
             sanitise(opts, 100)
         files[linked.get(path, path)] = gen_config.render(opts)
     lane = "unreadable" if rng.chance(12) else "normal"
+    # how the inputs are spelled: relative to the working directory, absolute, absolute with a detour through a
+    # directory that has a config of its own and is no ancestor of the file (`zdet/sub/../../p/a/x.rs`), absolute
+    # through a symbolic link to the file's directory (the ancestors that count are the real ones)
+    absmode = rng.choice([False] * 7 + [True, True, "dots", "dots", "linkdir"])
+    if absmode == "dots":
+        files["zdet/sub/.keep"] = ""
+        files["zdet/rustfmt.toml"] = "hard_tabs = true\nmax_width = 41\n"
+        files["zdet/sub/.rustfmt.toml"] = "hard_tabs = true\nmax_width = 43\n"
+    elif absmode == "linkdir":
+        for p in probes:
+            d = os.path.dirname(p)
+            files["zl_" + d.replace("/", "_")] = {"symlink": d}
     return {
         "world": {"files": files}, "configs": configs, "probes": probes, "order": order, "cli": cli,
-        "home": home, "xdg": xdg, "env": env, "cwd": rng.choice([".", ".", "p"]), "abs": rng.chance(20),
+        "home": home, "xdg": xdg, "env": env, "cwd": rng.choice([".", ".", "p"]), "abs": absmode,
         "hashseed": rng.below(1 << 32), "lane": lane,
     }
 
@@ -263,7 +275,12 @@ def execute(case):
         world["files"]["zhome/.keep"] = ""
         sc.fresh_world(world)
         env = dict(case["env"])
-        parg = lambda p: ("$ROOT/" + p) if case["abs"] else os.path.relpath(p, case["cwd"])
+        def parg(p):
+            if case["abs"] == "dots":
+                return "$ROOT/zdet/sub/../../" + p
+            if case["abs"] == "linkdir":
+                return "$ROOT/zl_%s/%s" % (os.path.dirname(p).replace("/", "_"), os.path.basename(p))
+            return ("$ROOT/" + p) if case["abs"] else os.path.relpath(p, case["cwd"])
         margv = ["--emit", "stdout"] + cli_args(cli) + [parg(probes[i]) for i in case["order"]]
         inv = {"argv": margv, "cwd": case["cwd"], "env": env, "hashseed": case["hashseed"]}
         effs = {p: effective(case, p) for p in probes}
